@@ -7,7 +7,7 @@ mkdir -p "$OUT/tree"
 for p in "$@"; do p=$(realpath "$p")
   for f in $(grep -E '^\+\+\+ b/' "$p" | sed 's#^+++ b/##'); do
     mkdir -p "$OUT/tree/$(dirname "$f")"
-    [ -f "$OUT/tree/$f" ] || cp "/repo/$f" "$OUT/tree/$f"
+    [ -f "$OUT/tree/$f" ] || { [ -f "/repo/$f" ] && cp "/repo/$f" "$OUT/tree/$f" || : > "$OUT/tree/$f"; }
   done
   (cd "$OUT/tree" && patch -s -p1 < "$p")
 done
